@@ -94,6 +94,27 @@ pub fn guarded<T>(f: impl FnOnce() -> T) -> Option<T> {
 
 fn main() {
     let args: Vec<String> = std::env::args().collect();
+    if args.len() >= 2 && args[1] == "session" {
+        // ad-hoc replay: one operation per stdin line (`e <src>` eval, `c <src>` compile, `r` run, `a` abort_run, `d` dump)
+        std::panic::set_hook(Box::new(|_| {}));
+        let mut xs = xeh::prelude::Xstate::boot().unwrap();
+        xs.intercept_stdout(true);
+        let mut line = String::new();
+        while { line.clear(); std::io::stdin().read_line(&mut line).unwrap() > 0 } {
+            let l = line.trim_end_matches('\n');
+            let (op, src) = l.split_at(l.len().min(1));
+            let src = src.trim_start();
+            let r = match op {
+                "e" => guarded(|| xs.eval(src)).map(|r| format!("{:?}", r)),
+                "c" => guarded(|| xs.compile(src)).map(|r| format!("{:?}", r)),
+                "r" => guarded(|| xs.run()).map(|r| format!("{:?}", r)),
+                "a" => { xs.abort_run(); Some("aborted".to_string()) }
+                _ => Some(String::new()),
+            };
+            println!("{} => {} | {}", l, r.unwrap_or("panic".into()), props::c03::snapshot(&mut xs));
+        }
+        return;
+    }
     if args.len() < 6 || args[1] != "emit" {
         eprintln!("usage: harness emit <prop> <seed> <n> <outdir> [quick|thorough]");
         std::process::exit(2);
